@@ -9,7 +9,7 @@ from wire import feats_to_json
 
 TABLES = []
 LAKE_TARGETS = ["Moclo.Props.C10"]
-THEOREMS = []
+THEOREMS = ["Moclo.C10." + t for t in ["deref_points_to_reference", "cites_carried", "product_references", "inputs_citations_unchanged"]]
 RULE = ("well-formed assemblies whose inputs carry reference lists of length 0-4 (references shared between inputs "
         "or unique to one, an input listing equal references twice), features citing none, one or several of them, "
         "inside and outside the retained fragments; two consecutive calls. non-trivial = the product carries at "
@@ -24,8 +24,8 @@ def annotate(rng, case, info):
     for e, parts, is_vec in ents:
         wd = e["word"]
         n = len(wd)
-        nrefs = rng.choice([0, 1, 2, 3, 4])
-        refs = [rng.randrange(100, 108) for _ in range(nrefs)]
+        nrefs = rng.choice([0, 1, 2, 3, 4, 4, 11, 14])
+        refs = [rng.randrange(100, 108 if nrefs < 10 else 140) for _ in range(nrefs)]
         if rng.random() < 0.8:
             refs = list(dict.fromkeys(refs))
         e["refs"] = refs
